@@ -1,11 +1,11 @@
 use std::cell::UnsafeCell;
 use std::ptr;
 #[cfg(may_verif)]
-use crate::atomic::AtomicPtr;
+use crate::atomic::{AtomicPtr, AtomicUsize};
 #[cfg(may_verif)]
 use std::sync::atomic::Ordering;
 #[cfg(not(may_verif))]
-use std::sync::atomic::{AtomicPtr, Ordering};
+use std::sync::atomic::{AtomicPtr, AtomicUsize, Ordering};
 
 use crossbeam_utils::{Backoff, CachePadded};
 
@@ -13,7 +13,9 @@ struct Node<T> {
     prev: *mut Node<T>,
     next: AtomicPtr<Node<T>>,
     value: Option<T>,
-    refs: usize,
+    // the handle may be inspected and dropped on another thread than the
+    // consumer's, so the link bit and the reference count are updated atomically
+    refs: AtomicUsize,
 }
 // linked bit is MSB, ref count is 2 for handle and list
 const REF_INIT: usize = 0x1000_0002;
@@ -33,14 +35,14 @@ impl<T> Node<T> {
             prev: ptr::null_mut(),
             next: AtomicPtr::new(ptr::null_mut()),
             value: v,
-            refs: REF_INIT,
+            refs: AtomicUsize::new(REF_INIT),
         })), 0, 0, 0);
         #[cfg(not(may_verif))]
         Box::into_raw(Box::new(Node {
             prev: ptr::null_mut(),
             next: AtomicPtr::new(ptr::null_mut()),
             value: v,
-            refs: REF_INIT,
+            refs: AtomicUsize::new(REF_INIT),
         }))
     }
 }
@@ -67,8 +69,8 @@ impl<T> Entry<T> {
     /// judge if the node is still linked in the list
     #[inline]
     pub fn is_link(&self) -> bool {
-        let node = unsafe { &mut *self.0.as_ptr() };
-        node.refs & !REF_COUNT_MASK != 0
+        let node = unsafe { &*self.0.as_ptr() };
+        node.refs.load(Ordering::Acquire) & !REF_COUNT_MASK != 0
     }
 
     #[inline]
@@ -93,7 +95,7 @@ impl<T> Entry<T> {
             let node = self.0.as_mut();
 
             // when the link bit is cleared, next and prev is no longer valid
-            if node.refs & !REF_COUNT_MASK == 0 {
+            if node.refs.load(Ordering::Acquire) & !REF_COUNT_MASK == 0 {
                 // already removed
                 return None;
             }
@@ -118,7 +120,7 @@ impl<T> Entry<T> {
             // that prevent frequent queue create and destroy
             if !next.is_null() {
                 // clear the link bit
-                node.refs &= REF_COUNT_MASK;
+                node.refs.fetch_and(REF_COUNT_MASK, Ordering::AcqRel);
 
                 // this is not the last node, just unlink it
                 (*next).prev = prev;
@@ -127,8 +129,7 @@ impl<T> Entry<T> {
                 let ret = node.value.take();
 
                 // since self is not dropped, below is always false
-                node.refs -= 1;
-                if node.refs == 0 {
+                if node.refs.fetch_sub(1, Ordering::AcqRel) == 1 {
                     // release the node only when the ref count becomes 0
                     let _: Box<Node<T>> = Box::from_raw(node);
                 }
@@ -148,8 +149,7 @@ impl<T> Drop for Entry<T> {
     fn drop(&mut self) {
         let node = unsafe { self.0.as_mut() };
         // dec the ref count of node
-        node.refs -= 1;
-        if node.refs == 0 {
+        if node.refs.fetch_sub(1, Ordering::AcqRel) == 1 {
             // release the node
             let _: Box<Node<T>> = unsafe { Box::from_raw(node) };
         }
@@ -175,7 +175,7 @@ impl<T> Queue<T> {
     pub fn new() -> Queue<T> {
         let stub = unsafe { Node::new(None) };
         // there is no handle for the node, so it's ref should be 1 now
-        unsafe { &mut *stub }.refs = 1;
+        *unsafe { &mut *stub }.refs.get_mut() = 1;
         Queue {
             head: AtomicPtr::new(stub).into(),
             tail: UnsafeCell::new(stub),
@@ -264,8 +264,8 @@ impl<T> Queue<T> {
             }
 
             // clear the link bit
-            assert!((*tail).refs & REF_COUNT_MASK != 0);
-            (*tail).refs &= REF_COUNT_MASK;
+            let refs = (*tail).refs.fetch_and(REF_COUNT_MASK, Ordering::AcqRel);
+            assert!(refs & REF_COUNT_MASK != 0);
 
             // clear the prev pointer indicate a new end point
             (*next).prev = ptr::null_mut();
@@ -274,8 +274,7 @@ impl<T> Queue<T> {
 
             // we take the next value, this is why use option to host the value
             let ret = (*next).value.take().unwrap();
-            (*tail).refs -= 1;
-            if (*tail).refs == 0 {
+            if (*tail).refs.fetch_sub(1, Ordering::AcqRel) == 1 {
                 // release the node only when the ref count becomes 0
                 let _: Box<Node<T>> = Box::from_raw(tail);
             }
@@ -295,8 +294,8 @@ impl<T> Queue<T> {
             }
 
             // clear the link bit
-            assert!((*tail).refs & REF_COUNT_MASK != 0);
-            (*tail).refs &= REF_COUNT_MASK;
+            let refs = (*tail).refs.fetch_and(REF_COUNT_MASK, Ordering::AcqRel);
+            assert!(refs & REF_COUNT_MASK != 0);
 
             // spin until tail next become non-null
             let mut next;
@@ -316,8 +315,7 @@ impl<T> Queue<T> {
             assert!((*next).value.is_some());
             // we tack the next value, this is why use option to host the value
             let ret = (*next).value.take().unwrap();
-            (*tail).refs -= 1;
-            if (*tail).refs == 0 {
+            if (*tail).refs.fetch_sub(1, Ordering::AcqRel) == 1 {
                 // release the node only when the ref count becomes 0
                 let _: Box<Node<T>> = Box::from_raw(tail);
             }
@@ -342,9 +340,8 @@ impl<T> Drop for Queue<T> {
         unsafe {
             let tail = *self.tail.get();
             // clear the link bit
-            (*tail).refs &= REF_COUNT_MASK;
-            (*tail).refs -= 1;
-            if (*tail).refs == 0 {
+            (*tail).refs.fetch_and(REF_COUNT_MASK, Ordering::AcqRel);
+            if (*tail).refs.fetch_sub(1, Ordering::AcqRel) == 1 {
                 let _: Box<Node<T>> = Box::from_raw(tail);
             }
         }
